@@ -62,6 +62,10 @@ MUTANTS = [
     M('C02-vertex-pairing', 'C02', 'R4/radial', (LSHAPE, 'points.iter().zip(points.iter().cycle().skip(1))', 'points.iter().zip(points.iter().cycle().skip(2))')),
     # C03
     M('C03-image-range-two', 'C03', 'R6/shell-witness', (POT, '.periodic_images(position, 3, false)', '.periodic_images(position, 2, false)')),
+    M('C03-shared-inner-iterator', 'C03', 'R2/in-cell-pairs-once',
+      (POT, '        // Compare within the current cell\n', '        // Compare within the current cell\n        let mut others = self.cartesian_positions().map(|p| self.shape.transform(&p));\n'),
+      (POT, '            for shape2 in self\n                .cartesian_positions()\n                .map(|p| self.shape.transform(&p))\n                .skip(index + 1)\n            {\n                sum += shape1.energy(&shape2);',
+       '            for shape2 in others.by_ref().skip(index + 1) {\n                sum += shape1.energy(&shape2);')),
     M('C03-sign', 'C03', 'R1/score-is', (POT, 'Some(-sum / self.total_shapes() as f64)', 'Some(sum / self.total_shapes() as f64)')),
     M('C03-no-normalisation', 'C03', 'R1/score-is', (POT, 'Some(-sum / self.total_shapes() as f64)', 'Some(-sum)')),
     M('C03-image-weight-back-to-one', 'C03', 'R2/PotentialState::score/periodic-accumulation', (POT, 'sum += 0.5 * shape1.energy(&shape2);', 'sum += shape1.energy(&shape2);')),
@@ -78,6 +82,10 @@ MUTANTS = [
     M('C06-undo-index-0', 'C06', 'R2/undo-same-index', (OPT, '.get(basis_index)', '.get(0)')),
     M('C06-reset-writes-min', 'C06', 'R3/reset-writes-old', (BAS, 'self.value.set_value(self.old);', 'self.value.set_value(self.min);')),
     M('C06-old-is-new', 'C06', 'R3/old-is-pre-write-value', (BAS, 'self.old = self.get_value();', 'self.old = new_value;')),
+    M('C06-undo-only-above-epsilon', 'C06', 'R3/reset-always-restores',
+      (BAS, '        self.value.set_value(self.old);', '        if (self.get_value() - self.old).abs() > std::f64::EPSILON {\n            self.value.set_value(self.old);\n        }')),
+    M('C06-reject-falls-back-to-loop-start', 'C06', 'R5/compared-score-never-falls-back-to-a-snapshot',
+      (OPT, '                        loop_rejections += 1;\n                        score_current\n', '                        loop_rejections += 1;\n                        score_start\n')),
     M('C06-undo-removed', 'C06', 'R2/', (OPT, '                            .expect("Trying to access basis which doesn\'t exist.")\n                            .reset_value();', '                            .expect("Trying to access basis which doesn\'t exist.");')),
     # C07
     M('C07-old-minus-new', 'C07', 'R3/', (OPT, 'f64::exp((new - old) / kt)', 'f64::exp((old - new) / kt)')),
@@ -144,6 +152,8 @@ MUTANTS = [
     M('C16-p2gg-sign', 'C16', 'R2/closure:p2gg', (WALL, '"-x+1/2, y+1/2", "x+1/2, -y+1/2"', '"-x+1/2, y+1/2", "x+1/2, y+1/2"')),
     # C17
     M('C17-guard-removed', 'C17', 'R2/index-in-bounds', (TRANS, '            x if x > 2 => bail!("Too many dimensions in input"),\n', '')),
+    M('C17-fraction-divides-by-numerator', 'C17', 'R3/digit-step:form',
+      (TRANS, "Some(op) if op == '/' => sign * constant / val,", "Some(op) if op == '/' => sign / constant / val,")),
     M('C17-unwrap', 'C17', 'R1/', (TRANS, 'let val = c.to_string().parse::<u64>()? as f64;', 'let val = c.to_string().parse::<u64>().unwrap() as f64;')),
     # C18
     M('C18-cool-in-inner-loop', 'C18', 'R1/', (OPT, '                        loop_rejections += 1;\n                        score_current', '                        loop_rejections += 1;\n                        kt *= self.kt_ratio;\n                        score_current')),
@@ -240,6 +250,8 @@ BENIGN = [
                         .reset_value();
                     loop_rejections += 1;
                 }''')),
+    B('undo-skipped-when-nothing-changed', ['C06', 'C05'],
+      (BAS, '        self.value.set_value(self.old);', '        if self.get_value() != self.old {\n            self.value.set_value(self.old);\n        }')),
     B('index-instead-of-get', ['C06', 'C20'],
       (OPT, '''                basis
                     .get_mut(basis_index)
